@@ -1436,7 +1436,11 @@ impl DateTimePrinter {
         // would be to return an error. It isn't clear how important this is in
         // practice though.
         if offset.part_seconds_ranged().abs() >= C(30) {
-            if minutes == 59 {
+            if hours == 25 && minutes == 59 {
+                // Rounding up would give `26:00`, which is beyond the
+                // maximum offset and thus could not be parsed back. The
+                // closest printable offset is `25:59`.
+            } else if minutes == 59 {
                 hours = hours.saturating_add(1);
                 minutes = 0;
             } else {
